@@ -110,6 +110,12 @@ def compare_outcome(S, d, twin_d, P):
         return fail(P + "/rejected-valid:%s" % type(e).__name__, input=d, exc=e)
     if not isinstance(o, oracle.RefError):
         raise AssertionError("oracle raised %r" % (o,))
+    # classification of one recorded defect: with the 'null union member swallows unmatched input' behaviour switched on in
+    # the reference, does the reference fail exactly like the real code?
+    st_k, k = call(oracle.ref_decode, S.T, d, None, oracle.NONE_FALLBACK)
+    if st_k == "exc" and isinstance(k, oracle.RefError) and (k.kind, k.field_name) != (o.kind, o.field_name):
+        if type(e) in (MissingField, InvalidFieldValue) and getattr(e, "field_name", None) == k.field_name:
+            return fail(P + "/union-none-fallback", input=d, exc=e, strict_reference=(o.kind, o.field_name))
     if o.kind == "not-a-dict":
         if type(e) is not ValueError:
             return fail(P + "/non-dict-wrong-exception:%s" % type(e).__name__, input=d, exc=e)
